@@ -30,15 +30,20 @@ Qed.
 Definition without (x : str) (l : list str) : list str := filter (fun y => negb (str_eqb y x)) l.
 Lemma without_length x l : length l = count_str x l + length (without x l).
 Proof. unfold without. induction l as [|y l IH]; cbn; auto. destruct (str_eqb y x); cbn; lia. Qed.
+Lemma str_eqb_refl x : str_eqb x x = true.
+Proof. now apply str_eqb_eq. Qed.
 Lemma without_count x z l : str_eqb z x = false -> count_str z (without x l) = count_str z l.
 Proof.
-  intros Hz. induction l as [|y l IH]; cbn; auto. destruct (str_eqb y x) eqn:E; cbn; rewrite IH; auto.
-  apply str_eqb_eq in E. subst y. now rewrite (proj2 (not_true_iff_false _) (fun H => _)) by
-    (intros H; apply str_eqb_eq in H; subst; assert (str_eqb x x = true) by (now apply str_eqb_eq); congruence).
+  intros Hz. unfold without. induction l as [|y l IH]; cbn; auto.
+  destruct (str_eqb y x) eqn:E; cbn.
+  - apply str_eqb_eq in E. subst y. destruct (str_eqb x z) eqn:E2.
+    + apply str_eqb_eq in E2. subst. rewrite str_eqb_refl in Hz. discriminate.
+    + cbn. exact IH.
+  - now rewrite IH.
 Qed.
 Lemma without_count_same x l : count_str x (without x l) = 0.
 Proof.
-  induction l as [|y l IH]; cbn; auto. destruct (str_eqb y x) eqn:E; cbn; auto. now rewrite E.
+  unfold without. induction l as [|y l IH]; cbn; auto. destruct (str_eqb y x) eqn:E; cbn; auto. now rewrite E.
 Qed.
 
 (** the boolean test decides multiset equality *)
@@ -47,7 +52,7 @@ Proof.
   intros a. remember (length a) as n eqn:Hn. revert a Hn.
   induction n as [n IH] using lt_wf_ind. intros a Hn b Hl Hc z.
   destruct a as [|x a'].
-  - destruct b; [reflexivity|discriminate].
+  - subst n. destruct b; [reflexivity|discriminate].
   - set (a := x :: a') in *.
     assert (Hx : In x a) by now left.
     pose proof (Hc x Hx) as Cx.
@@ -126,6 +131,14 @@ Proof.
   - intros [ed [Hed [T K]]]. exists ed. split; [apply filter_In; split; auto; now apply Nat.eqb_eq|]. rewrite K. now left.
 Qed.
 
+Lemma NoDup_app_intro {A} (l1 l2 : list A) :
+  NoDup l1 -> NoDup l2 -> (forall x, In x l1 -> ~ In x l2) -> NoDup (l1 ++ l2).
+Proof.
+  induction l1 as [|x l1 IH]; cbn; auto. intros N1 N2 D. inversion N1 as [|? ? Hx N1']; subst. constructor.
+  - rewrite in_app_iff. intros [H|H]; [contradiction|]. apply (D x); auto.
+  - apply IH; auto.
+Qed.
+
 Section Complete.
   Variable u : universe.
   Variable g : gstate.
@@ -155,7 +168,7 @@ Section Complete.
     { intros i Hi Hj. unfold implicit_idx in Hj. apply filter_In in Hj as [_ Hj]. apply negb_true_iff in Hj.
       apply E in Hi. apply existsb_eqb_In in Hi. congruence. }
     split; [|exact Dj]. apply NoDup_Permutation.
-    - apply NoDup_app_iff. split; [exact ND|]. split; [apply NoDup_filter', seq_NoDup|]. exact Dj.
+    - apply NoDup_app_intro; [exact ND|apply NoDup_filter', seq_NoDup|exact Dj].
     - apply seq_NoDup.
     - intros i. rewrite in_app_iff, in_seq. unfold implicit_idx. rewrite filter_In, in_seq, negb_true_iff. split.
       + intros [H|[H _]]; [apply R in H|]; lia.
@@ -164,6 +177,11 @@ Section Complete.
         * right. split; [lia|reflexivity].
   Qed.
 End Complete.
+
+Lemma flat_map_ext_in' {A B} (f h : A -> list B) l : (forall x, In x l -> f x = h x) -> flat_map f l = flat_map h l.
+Proof.
+  induction l as [|x l IH]; cbn; auto. intros H. rewrite (H x) by auto. f_equal. apply IH. intros y Hy. apply H. auto.
+Qed.
 
 (** * the names *)
 Section Names.
@@ -180,7 +198,7 @@ Section Names.
     assert (G : forall l a, map (fun x : name * kid => nstr e (fst x)) l =
                             flat_map (fun i => match nth_error l (i - a) with Some (nm, _) => [nstr e nm] | None => [] end) (seq a (length l))).
     { induction l as [|[nm k] l IH]; intros a; cbn; auto. rewrite Nat.sub_diag. cbn. f_equal. rewrite (IH (S a)).
-      apply flat_map_ext_in. intros i Hi. apply in_seq in Hi. replace (i - a) with (S (i - S a)) by lia. reflexivity. }
+      apply flat_map_ext_in'. intros i Hi. apply in_seq in Hi. replace (i - a) with (S (i - S a)) by lia. reflexivity. }
     rewrite (G imps 0). apply flat_map_ext. intros i. unfold name_at. now rewrite Nat.sub_0_r.
   Qed.
 
@@ -202,7 +220,7 @@ Section Names.
     { induction l as [|[nm k] l IH]; intros a; cbn; auto. rewrite Nat.sub_diag. cbn [nth_error].
       rewrite map_app, (IH (S a)). f_equal.
       - destruct (existsb (Nat.eqb a) sat); reflexivity.
-      - apply flat_map_ext_in. intros i Hi. apply in_seq in Hi. replace (i - a) with (S (i - S a)) by lia. reflexivity. }
+      - apply flat_map_ext_in'. intros i Hi. apply in_seq in Hi. replace (i - a) with (S (i - S a)) by lia. reflexivity. }
     rewrite (H imps 0). apply flat_map_ext. intros i. unfold name_at. now rewrite Nat.sub_0_r.
   Qed.
 
@@ -211,8 +229,8 @@ Section Names.
     map arg_name (explicit_args e u g ord n) = flat_map (name_at imps) (explicit_idx g n).
   Proof.
     intros G I. unfold explicit_args, explicit_idx. rewrite G, I.
-    induction (incoming g n) as [|ed es IH]; cbn; auto.
-    rewrite map_app, flat_map_app, IH. f_equal.
+    induction (incoming g n) as [|ed es IH]; [reflexivity|]. cbn [flat_map].
+    rewrite map_app, flat_map_app. f_equal; [|exact IH].
     destruct (ek ed) as [i|i|]; cbn; auto. unfold name_at. destruct (nth_error imps i) as [[nm k]|]; cbn; auto.
   Qed.
 
